@@ -89,6 +89,7 @@ func init() {
 			opts.DataConds = d.Bool()
 			opts.StartFork = d.Bool()
 			opts.ActivityDefault = d.Bool()
+			opts.EmptyBranches = d.Bool()
 			prog := GenProgram(d, opts)
 			c := &ProcCase{Prog: prog, Buf: d.N(17), Hold: d.N(3)}
 			c.Picks = drawPicks(d, 48)
